@@ -107,6 +107,22 @@ func (p Prefix) Match(key string, match *PrefixMatch) (ok bool) {
 	keyParts := strings.Split(strings.TrimLeft(key, p.Delimiter), p.Delimiter)
 	preParts := strings.Split(strings.TrimLeft(p.Prefix, p.Delimiter), p.Delimiter)
 
+	if len(p.Delimiter) > 1 && strings.HasPrefix(key, p.Prefix) && !strings.HasPrefix(p.Prefix, p.Delimiter[:1]) {
+		// With a delimiter of several bytes the prefix may end inside an
+		// occurrence of it ("t:" for the key "t::a", delimiter "::"); the
+		// part-wise comparison below would not see that the key starts with
+		// the prefix. The rule itself is simple: the key matches, and rolls up
+		// to the first delimiter that follows the prefix, if there is one.
+		out, rest := key, key[len(p.Prefix):]
+		if i := strings.Index(rest, p.Delimiter); i >= 0 {
+			out = key[:len(p.Prefix)+i+len(p.Delimiter)]
+		}
+		if match != nil {
+			*match = PrefixMatch{Key: key, CommonPrefix: out != key, MatchedPart: out}
+		}
+		return true
+	}
+
 	if len(keyParts) < len(preParts) {
 		return false
 	}
